@@ -46,6 +46,14 @@ RegViols(e) ==
     \o (IF e.dupIds # 0 THEN <<V("C04", "session_id_reused", e.dupIds)>> ELSE <<>>)
     \o (IF e.closeEvents # e.connEvents THEN <<V("C03", "not_exactly_one_close_event", [closes |-> e.closeEvents, sessions |-> e.connEvents])>> ELSE <<>>)
 
+\* the table's container: a key stored is found by the delete that follows, with its value; stable keys stay reachable; nothing is left
+MapViols(e) ==
+    IF e.lostDeletes # 0 \/ e.wrongValues # 0 \/ e.stableMissDuring # 0 \/ e.stableMissingAtEnd # 0 \/ e.finalLen # 0
+    THEN <<V("C20", "map_not_linearizable", [lostDeletes |-> e.lostDeletes, wrongValues |-> e.wrongValues, stableMissDuring |-> e.stableMissDuring,
+                                              stableMissingAtEnd |-> e.stableMissingAtEnd, finalLen |-> e.finalLen]),
+           V("C04", "session_not_reachable_under_its_id", "the client table's container loses entries under concurrent use")>>
+    ELSE <<>>
+
 Step ==
     LET e == Trace[l] IN
     /\ l <= Len(Trace) /\ l' = l + 1 /\ done' = FALSE
@@ -53,6 +61,7 @@ Step ==
     /\ viol' = CASE e.e = "race.send" -> viol \o SendViols(e)
                  [] e.e = "race.close" -> viol \o CloseViols(e)
                  [] e.e = "race.registry" -> viol \o RegViols(e)
+                 [] e.e = "race.map" -> viol \o MapViols(e)
                  [] e.e \in {"bubble.panic", "wedged", "process.died", "handler.panic"} ->
                       Append(viol, V("C09", e.e, IF "msg" \in DOMAIN e THEN e.msg ELSE ""))
                  [] OTHER -> viol
